@@ -822,6 +822,12 @@ func (g *Gen) stmt(d int) []Stmt {
 		g.cover("match-stmt")
 		m := g.matchExpr(Int, d).(Match)
 		return []Stmt{Let{Name: g.declFresh(Int), V: m}}
+	case r < 19 && g.F.Lists && g.R.Chance(1, 3):
+		if st := g.nestedListStmts(d); st != nil {
+			return st
+		}
+	case r < 19 && g.F.Loops && d > 0 && g.R.Chance(1, 3):
+		return g.rangeVarStmts(d)
 	case r < 19 && g.hasTrigger && g.R.Chance(1, 2):
 		g.cover("trigger-stmt")
 		return []Stmt{Trigger{Callback: "cb", Conn: "at", Name: "minute", Args: []Expr{g.pureExpr(Int, d)}}}
@@ -835,6 +841,62 @@ func (g *Gen) stmt(d int) []Stmt {
 		}
 	}
 	return []Stmt{g.letStmt(d)}
+}
+
+// nestedListStmts: a list literal built from existing list variables (aliases), one alias mutated
+// in place, both printed by the following trace.
+func (g *Gen) nestedListStmts(d int) []Stmt {
+	vs := g.varsOf(ListOf(Int))
+	if len(vs) == 0 {
+		return nil
+	}
+	g.cover("nested-list-alias")
+	a := fw.Pick(g.R, vs)
+	b := fw.Pick(g.R, vs)
+	lt := ListOf(ListOf(Int))
+	g.nameN++
+	m := "nl" + letters(g.nameN) // never shadows the aliases it is built from
+	g.declare(m, lt)
+	av, mv := Var{a.name, a.t}, Var{m, lt}
+	out := []Stmt{Let{Name: m, V: ListLit{Elems: []Expr{av, Var{b.name, b.t}}, Ty: lt}}}
+	switch g.R.Intn(3) {
+	case 0:
+		out = append(out, ExprStmt{MCall{Recv: av, Name: "push", Args: []Expr{g.pureExpr(Int, d-1)}, Ret: Null}})
+	case 1:
+		out = append(out, ExprStmt{Assign{"=", Index{Index{mv, IntLit{int64(g.R.Intn(2))}}, IntLit{0}}, g.pureExpr(Int, d-1)}})
+	default:
+		out = append(out, ExprStmt{MCall{Recv: Index{mv, IntLit{-1}}, Name: "push", Args: []Expr{g.pureExpr(Int, d-1)}, Ret: Null}})
+	}
+	out = append(out, ExprStmt{Builtin{"println", []Expr{StrLit{"nl"}, mv, av, Var{b.name, b.t}}}})
+	return out
+}
+
+// rangeVarStmts: a range kept in a variable, iterated, left early, and iterated again.
+func (g *Gen) rangeVarStmts(d int) []Stmt {
+	g.cover("range-var")
+	g.nameN++
+	rv := "rg" + letters(g.nameN)
+	lo := int64(g.R.Intn(3))
+	hi := lo + 2 + int64(g.R.Intn(4))
+	incl := g.R.Chance(1, 4)
+	g.declare(rv, Range)
+	rvar := Var{rv, Range}
+	out := []Stmt{Let{Name: rv, V: RangeLit{A: IntLit{lo}, B: IntLit{hi}, Incl: incl}}}
+	g.loopDepth++
+	for pass := 0; pass < 2; pass++ {
+		i := g.fresh()
+		g.pushScope()
+		g.declare(i, Int)
+		body := &Block{}
+		if pass == 0 && g.R.Chance(2, 3) {
+			body.Stmts = append(body.Stmts, ExprStmt{If{Cond: Infix{"==", Var{i, Int}, IntLit{lo + 1}}, Then: &Block{Stmts: []Stmt{Break{}}}}})
+		}
+		body.Stmts = append(body.Stmts, g.stmts(1, d-1)...)
+		g.popScope()
+		out = append(out, For{Name: i, Iter: rvar, Body: body})
+	}
+	g.loopDepth--
+	return out
 }
 
 // closureStmts: a non-capturing function literal bound to a local and called.
